@@ -398,6 +398,11 @@ func vkRef(n *vkNode, path []string, i int) ([]string, int) {
 		return nil, vkErr
 	}
 	seg := path[i]
+	if strings.TrimSpace(seg) != seg && vkPlainIdent(strings.TrimSpace(seg)) {
+		// an identifier with surrounding whitespace names no field (segments are
+		// taken as they are)
+		return nil, vkErr
+	}
 	if !vkPlainIdent(seg) {
 		// Title-casing of non-identifier segments is not specified; such a
 		// segment cannot name a generated field, but stay three-valued.
@@ -564,6 +569,12 @@ func (g *vkGen) locator(n *vkNode) string {
 		if len(p) > 1 {
 			i := r.Intn(len(p) - 1)
 			p = append(p[:i+1], append([]string{""}, p[i+1:]...)...)
+		}
+	case 10:
+		// a valid segment with surrounding whitespace
+		if len(p) > 0 {
+			i := r.Intn(len(p))
+			p[i] = []string{" " + p[i], p[i] + " ", p[i] + "\t"}[r.Intn(3)]
 		}
 	}
 	return strings.Join(p, ".")
